@@ -678,12 +678,12 @@ func (in *Interp) rangeNext(st *State, x *ssa.Next, v Value) Value {
 			r, size := decodeRune(raw)
 			pos := d.Pos
 			d.Pos += size
-			st.heap[it.Obj] = &Object{Cell: d, Tag: "iter"}
+			st.setCell(it.Obj, d)
 			return Tuple{E: []Value{tf.True(), tf.ConstI(64, int64(pos)), tf.ConstI(32, int64(r))}}
 		}
 		pos := d.Pos
 		d.Pos++
-		st.heap[it.Obj] = &Object{Cell: d, Tag: "iter"}
+		st.setCell(it.Obj, d)
 		return Tuple{E: []Value{tf.True(), tf.ConstI(64, int64(pos)), tf.ZExt(32, b)}}
 	}
 	mt := x.Iter.(*ssa.Range).X.Type().Underlying().(*types.Map)
@@ -692,7 +692,7 @@ func (in *Interp) rangeNext(st *State, x *ssa.Next, v Value) Value {
 	}
 	k, val := d.Keys[d.Pos], d.Vals[d.Pos]
 	d.Pos++
-	st.heap[it.Obj] = &Object{Cell: d, Tag: "iter"}
+	st.setCell(it.Obj, d)
 	return Tuple{E: []Value{tf.True(), k, val}}
 }
 
@@ -805,7 +805,7 @@ func (in *Interp) builtin(st *State, name string, args []Value, retTo ssa.Value,
 			nk := append(append([]Value(nil), md.Keys[:found]...), md.Keys[found+1:]...)
 			nv := append(append([]Value(nil), md.Vals[:found]...), md.Vals[found+1:]...)
 			in.logAccess(st, mr.Obj, nil, true, pos)
-			st.heap[mr.Obj] = &Object{Cell: MapData{Keys: nk, Vals: nv}, Tag: st.heap[mr.Obj].Tag}
+			st.setCell(mr.Obj, MapData{Keys: nk, Vals: nv})
 		}
 		return nil
 	case "recover":
@@ -838,7 +838,7 @@ func (in *Interp) builtin(st *State, name string, args []Value, retTo ssa.Value,
 		switch a := args[0].(type) {
 		case MapRef:
 			if !a.Nil {
-				st.heap[a.Obj] = &Object{Cell: MapData{}, Tag: st.heap[a.Obj].Tag}
+				st.setCell(a.Obj, MapData{})
 			}
 			return nil
 		}
